@@ -71,7 +71,7 @@ type methodKey struct {
 
 var defaultInterp = []string{
 	"io", "strconv", "container/list", "sort", "strings", "bytes", "bufio", "unicode/utf8", "slices", "maps", "cmp",
-	"github.com/elliotchance/orderedmap", "encoding/csv", "encoding/xml", "encoding", "net/url", "github.com/magiconair/properties", "github.com/dimchansky/utfbom", "io/fs", "path", "math/bits", "math",
+	"github.com/elliotchance/orderedmap", "encoding/csv", "encoding/xml", "encoding", "net/url", "github.com/magiconair/properties", "github.com/dimchansky/utfbom", "io/fs", "path", "math/bits", "math", "encoding/base64", "encoding/binary",
 	"github.com/yuin/gopher-lua", // only its table type is reached (LTable.RawSet*/Next under decoder_lua.go's convertToYamlNode); the VM is not
 	"gopkg.in/yaml.v3", // scanner, parser and node builder run as SSA when the text is symbolic (yamlnative.go); concrete text goes to the linked library
 }
